@@ -729,6 +729,19 @@ class SymStr:
         return len(s) > 0 and all(contains(" \t\n\r\x0b\x0c", x) for x in s)
 
     def split(s, sep=None, maxsplit=-1):
+        if sep is None and maxsplit == -1:
+            # runs of whitespace separate the words; no empty words
+            parts, cur = [], []
+            for x in s.it:
+                if contains(" \t\n\r\x0b\x0c", _one(x)):
+                    if cur:
+                        parts.append(SymStr.mk(cur))
+                        cur = []
+                else:
+                    cur.append(x)
+            if cur:
+                parts.append(SymStr.mk(cur))
+            return parts
         if sep is None or maxsplit != -1 or len(sep) != 1:
             raise EngineGap("split form")
         parts, cur = [], []
@@ -739,6 +752,14 @@ class SymStr:
             else:
                 cur.append(x)
         parts.append(SymStr.mk(cur))
+        return parts
+
+    def splitlines(s, keepends=False):
+        if keepends:
+            raise EngineGap("splitlines(keepends)")
+        parts = s.split("\n")
+        if parts and len(parts[-1]) == 0:
+            parts.pop()
         return parts
 
     def replace(s, a, b):
@@ -752,16 +773,20 @@ class SymStr:
                 out.append(x)
         return SymStr.mk(out)
 
-    def find(s, sub, start=0):
+    def find(s, sub, start=0, end=None):
         n = len(sub)
-        for i in range(start, len(s) - n + 1):
+        ln = len(s) if end is None else (max(0, len(s) + end) if end < 0 else min(end, len(s)))
+        start = max(0, len(s) + start) if start < 0 else start
+        for i in range(start, ln - n + 1):
             if s[i:i + n] == sub:
                 return i
         return -1
 
-    def rfind(s, sub):
+    def rfind(s, sub, start=0, end=None):
         n = len(sub)
-        for i in range(len(s) - n, -1, -1):
+        ln = len(s) if end is None else (max(0, len(s) + end) if end < 0 else min(end, len(s)))
+        start = max(0, len(s) + start) if start < 0 else start
+        for i in range(ln - n, start - 1, -1):
             if s[i:i + n] == sub:
                 return i
         return -1
@@ -1043,6 +1068,37 @@ def getitem(obj, key):
     if tk is SymInt and not isinstance(obj, SymStr):
         key = key.concretize()
     return obj[key]
+
+
+class SymSet(list):
+    """set(...) of values some of which are symbolic strings: membership is decided by (forking) equality, which is what
+    the rewritten `in` does for lists; elements are kept distinct up to that equality"""
+
+    def add(self, x):
+        if not contains(self, x):
+            self.append(x)
+
+    def discard(self, x):
+        for i, y in enumerate(self):
+            if y == x:
+                del self[i]
+                return
+
+    def update(self, xs):
+        for x in xs:
+            self.add(x)
+
+
+def rt_set(*args):
+    if not args:
+        return set()
+    items = list(args[0])
+    if not any(isinstance(x, (SymStr, SymInt)) for x in items):
+        return set(items)
+    out = SymSet()
+    for x in items:
+        out.add(x)
+    return out
 
 
 def rt_get(obj, key, *default):
